@@ -539,6 +539,39 @@ int main(int argc, char** argv) {
     if (in.cls != 2) stat("gen.rect.NOT_RECTILINEAR");
     run_input(g, in, i % 4 == 0);
   }
+  //  * spike on an extreme row with company: a rectangle whose top or bottom edge overshoots a corner and comes back (the spike
+  //    ends exactly on the corner, i.e. on the vertex that closes the flat extreme), together with 1-3 rectangles that have an
+  //    edge on the same row overlapping the spike - the configuration in which an unmerged spike is swept as two opposite
+  //    horizontals next to other hot horizontals (found through the TrimHorz model tie, see DESIGN 12, C03b-m2)
+  for (int i = 0; i < 2 * n_rect; ++i) {
+    in = Input();
+    int64_t step = g.pick(std::vector<int64_t>{1, 1, 3, 1000});
+    int64_t x0 = g.range(0, 3), x1 = x0 + g.range(1, 4), y0 = g.range(0, 3), y1 = y0 + g.range(1, 3);
+    bool top = g.coin();                       // which horizontal edge carries the spike
+    int64_t yr = top ? y0 : y1;                // its row
+    int64_t ov = g.range(1, 3);                // overshoot
+    Path64 p;
+    // corners in order (x0,y0) (x1,y0) (x1,y1) (x0,y1); the spike is attached at the END of the chosen horizontal edge
+    if (top) p = Path64{Point64(x0, y0), Point64(x1 + ov, y0), Point64(x1, y0), Point64(x1, y1), Point64(x0, y1)};
+    else p = Path64{Point64(x0, y0), Point64(x1, y0), Point64(x1, y1), Point64(x0 - ov, y1), Point64(x0, y1)};
+    if (g.coin()) {                            // or at its START
+      if (top) p = Path64{Point64(x0, y0), Point64(x0 - ov, y0), Point64(x1, y0), Point64(x1, y1), Point64(x0, y1)};
+      else p = Path64{Point64(x0, y0), Point64(x1, y0), Point64(x1, y1), Point64(x1 + ov, y1), Point64(x0, y1)};
+    }
+    std::rotate(p.begin(), p.begin() + (long)g.range(0, 4), p.end());
+    if (g.coin()) std::reverse(p.begin(), p.end());
+    in.subj.push_back(p);
+    for (int k = (int)g.range(1, 3); k > 0; --k) {
+      int64_t l = g.range(-2, 5), r = l + g.range(1, 4), h = g.range(1, 2);
+      Path64 q = g.coin() ? rect_path(l, yr, r, yr + h) : rect_path(l, yr - h, r, yr);
+      if (g.coin()) std::reverse(q.begin(), q.end());
+      (g.chance(60) ? in.subj : in.clip).push_back(q);
+    }
+    if (g.coin()) for (auto* ps : {&in.subj, &in.clip}) for (auto& q : *ps) for (auto& v : q) std::swap(v.x, v.y), std::swap(v.x, v.y);
+    scale_paths(in.subj, step); scale_paths(in.clip, step);
+    in.cls = 2; in.gen = "rect.spike-on-extreme-row";
+    run_input(g, in, i % 3 == 0);
+  }
   for (int i = 0; i < n_deg / 8; ++i) {
     gen_nested(g, in, (int)g.range(1, 8), g.coin());
     run_input(g, in, false);
